@@ -43,7 +43,10 @@ def main():
         ok, out = C.run_translator()
         if not ok:
             broken.append(("translator", out[-3000:]))
-        names = C.theorem_names(prop_id)
+        props_files = list(getattr(P, "PROPS", [prop_id]))
+        names = []
+        for pf in props_files:
+            names += C.theorem_names(pf)
         obligations = len(names)
         ok_proof, out = C.make_targets(P.MAKE_TARGETS)
         if not ok_proof:
@@ -51,12 +54,13 @@ def main():
         hp = C.hygiene()
         if hp:
             broken.append(("hygiene", "; ".join(hp[:20])))
-        okp, msg = C.pins_ok(prop_id)
-        if not okp:
-            broken.append(("pins", msg))
+        for pf in props_files:
+            okp, msg = C.pins_ok(pf)
+            if not okp:
+                broken.append(("pins", msg))
         axioms_seen = set()
         if ok_proof:
-            assum, raw = C.assumptions_of(prop_id, names)
+            assum, raw = C.assumptions_of(prop_id, names, props_files)
             if assum is None:
                 broken.append(("assumptions", raw[-2000:]))
             else:
